@@ -98,6 +98,53 @@ func settle() {
 	}
 }
 
+// Node addresses travel percent-encoded in the op language and in every printed list (anything outside
+// [A-Za-z0-9._-] is %XX, the empty address is the token %E), so that spaces, colons, commas and brackets
+// (mixed-case host names, padded strings, IPv6 literals) survive the line protocol. The encoding is injective:
+// two addresses are the same node iff their tokens are equal.
+func enc(a string) string {
+	if a == "" {
+		return "%E"
+	}
+	var b strings.Builder
+	for i := 0; i < len(a); i++ {
+		c := a[i]
+		if c >= 'a' && c <= 'z' || c >= 'A' && c <= 'Z' || c >= '0' && c <= '9' || c == '.' || c == '_' || c == '-' {
+			b.WriteByte(c)
+		} else {
+			fmt.Fprintf(&b, "%%%02X", c)
+		}
+	}
+	return b.String()
+}
+
+func dec(t string) string {
+	if t == "%E" {
+		return ""
+	}
+	var b strings.Builder
+	for i := 0; i < len(t); i++ {
+		if t[i] == '%' && i+2 < len(t) {
+			var v int
+			if _, err := fmt.Sscanf(t[i+1:i+3], "%02X", &v); err == nil {
+				b.WriteByte(byte(v))
+				i += 2
+				continue
+			}
+		}
+		b.WriteByte(t[i])
+	}
+	return b.String()
+}
+
+func encAll(xs []string) []string {
+	out := make([]string, len(xs))
+	for i, x := range xs {
+		out[i] = enc(x)
+	}
+	return out
+}
+
 func stName(s circuitbreaker.State) string {
 	switch s {
 	case circuitbreaker.Closed:
@@ -115,7 +162,7 @@ func states(res string) (map[string]circuitbreaker.State, string) {
 	var xs []string
 	for a, b := range getNodeBreakersOfResource(res) {
 		m[a] = b.CurrentState()
-		xs = append(xs, a+":"+stName(m[a]))
+		xs = append(xs, enc(a)+":"+stName(m[a]))
 	}
 	return m, vh.SortedList(xs)
 }
@@ -244,8 +291,8 @@ func (it *Interp) unload(name string) string {
 }
 
 // one request: Entry (the outlier slot's check), optional callee + error, clock += rt, Exit
-func (it *Interp) request(name, addr string, fail bool, rt uint64) string {
-	if _, ok := it.rules[name]; !ok && !(it.cleared[name] && addr == "") {
+func (it *Interp) request(name, addr string, fail bool, rt uint64, probe bool) string {
+	if _, ok := it.rules[name]; !ok && !(it.cleared[name] && probe) {
 		panic("no rule for " + name)
 	}
 	res := it.rn(name)
@@ -268,6 +315,10 @@ func (it *Interp) request(name, addr string, fail bool, rt uint64) string {
 			rej = append(rej, a)
 		}
 	}
+	rejRaw := rej
+	rej = encAll(rej)
+	filter = encAll(filter)
+	halfs = encAll(halfs)
 	sort.Strings(rej)
 	sort.Strings(filter)
 	// the recycler has been handed every outlier by now
@@ -275,7 +326,7 @@ func (it *Interp) request(name, addr string, fail bool, rt uint64) string {
 		for i := 0; i < 1000; i++ {
 			sch := scheduled(res)
 			all := true
-			for _, a := range rej {
+			for _, a := range rejRaw {
 				all = all && sch[a]
 			}
 			if all {
@@ -291,8 +342,8 @@ func (it *Interp) request(name, addr string, fail bool, rt uint64) string {
 	if !it.raw && len(filter) < len(rej) && subset(filter, rej) {
 		fs = "*" // which of the rejecting nodes were taken depends on Go's map iteration order
 	}
-	if addr != "" {
-		api.TraceCallee(e, addr)
+	if !probe {
+		api.TraceCallee(e, addr) // a no-op for the empty address
 		if fail {
 			api.TraceError(e, errors.New("fail"))
 		}
@@ -345,9 +396,10 @@ func (it *Interp) Step(t []string, op string) string {
 	case "check":
 		// the retryer's timer callback with a scripted RecoveryCheckFunc result: connectNode -> onConnected / onDisconnected
 		res := it.rn(t[1])
-		it.script[t[2]] = t[3] == "ok"
-		retryerConnectNode(getRetryerOfResource(res), t[2])
-		delete(it.script, t[2])
+		a := dec(t[2])
+		it.script[a] = t[3] == "ok"
+		retryerConnectNode(getRetryerOfResource(res), a)
+		delete(it.script, a)
 		_, s := states(res)
 		return "nodes=" + s
 	case "clock":
@@ -358,17 +410,17 @@ func (it *Interp) Step(t []string, op string) string {
 		it.clk.SetMs(ms)
 		return ""
 	case "call":
-		return it.request(t[1], t[2], t[3] == "err", vh.U(t[4]))
+		return it.request(t[1], dec(t[2]), t[3] == "err", vh.U(t[4]), false)
 	case "probe":
-		return it.request(t[1], "", false, 0)
+		return it.request(t[1], "", false, 0, true)
 	case "recycle":
 		res := it.rn(t[1])
-		recyclerRecycle(getRecyclerOfResource(res), t[2])
+		recyclerRecycle(getRecyclerOfResource(res), dec(t[2]))
 		m, s := states(res)
 		return fmt.Sprintf("n=%d nodes=%s", len(m), s)
 	case "retry":
 		res := it.rn(t[1])
-		retryerOnConnected(getRetryerOfResource(res), t[2], vh.U(t[3]))
+		retryerOnConnected(getRetryerOfResource(res), dec(t[2]), vh.U(t[3]))
 		_, s := states(res)
 		return "nodes=" + s
 	case "cap":
